@@ -974,3 +974,10 @@ impl Core {
         0
     }
 }
+
+// Verification hook (inert unless built by Kani with the
+// `uazu-stakker-verif` feature): harness module kept in /verif
+#[cfg(all(kani, feature = "uazu-stakker-verif"))]
+mod uazu_stakker_verif {
+    include!(concat!(env!("UAZU_STAKKER_VERIF"), "/incrate/core.rs"));
+}
